@@ -67,7 +67,9 @@ for sid in sorted(os.listdir(SEEDED)):
             row["verdict"] = "out-of-reach (as documented)" if main["exit"] == 0 else \
                 ("caught" if (main["exit"] == 1 and main["replays_reproduce"]) else "UNEXPECTED")
         else:
-            row["verdict"] = "caught" if (main["exit"] == 1 and main["replays_reproduce"]) else "MISSED"
+            others = [k for k, c in row["checks"].items() if k != meta["property"] and c["exit"] == 1 and c["replays_reproduce"]]
+            row["verdict"] = "caught" if (main["exit"] == 1 and main["replays_reproduce"]) else \
+                ("caught-by-" + "+".join(others) if others else "MISSED")
         results = [r for r in results if r["id"] != sid] + [row]
         print(json.dumps(row), flush=True)
     finally:
